@@ -286,6 +286,46 @@ def converse(ctx, n_per_class):
                 report(ctx, f"{cls} rejected / failed on a well-formed instance: {type(e).__name__}: {e}", inst, site=f"{cls}:valid")
 
 
+def boundary_valid(ctx, suite="C19.boundary_valid"):
+    """inputs just INSIDE the domain, next to each validation (the converse half of the property): a validation that is made
+    stricter than documented rejects one of them"""
+    fp = ctx.fp
+    for cls in K.GRAPH_MODELS:
+        sig = K.signature(fp, cls)
+        cases = []
+        ck, cov = K.constraint_key(cls), K.coverage_key(cls)
+        if ck in sig:
+            two_branches = [[("a", "b"), ("b", "t")]] if K.is_cyc(cls) else [[("s", "b"), ("a", "t")]]
+            # two edges that lie on no common route, required only to one half: each route containing one of them will do
+            if not K.is_cyc(cls):
+                cases.append(("constraint with mutually unreachable edges, coverage 0.5", {ck: two_branches, cov: 0.5}))
+            cases.append(("coverage 0.01", {ck: K._valid_constraint(cls), cov: 0.01}))
+            cases.append(("coverage exactly 1 (int)", {ck: K._valid_constraint(cls), cov: 1}))
+            cases.append(("empty list of constraints", {ck: []}))
+        if "subpath_constraints_coverage_length" in sig:
+            cases.append(("coverage_length 1 with length_attr", {ck: K._valid_constraint(cls), "subpath_constraints_coverage_length": 1,
+                                                                "length_attr": "length"}))
+            cases.append(("mutually unreachable edges, coverage_length 0.5", {ck: [[("s", "b"), ("a", "t")]],
+                                                                            "subpath_constraints_coverage_length": 0.5, "length_attr": "length"}))
+        if cls in K.HAS_K:
+            cases.append(("k=1", {"k": 1}))
+        if "additional_starts" in sig and cls not in K.FLOW_DECOMP:
+            cases.append(("additional start and end that are nodes", {"additional_starts": ["a"], "additional_ends": ["b"]}))
+        if "error_scaling" in sig:
+            cases.append(("error_scaling 0 and 1", {"error_scaling": {("s", "a"): 0, ("a", "b"): 1}}))
+        if "elements_to_ignore" in sig:
+            cases.append(("one ignored edge", {"elements_to_ignore": [("a", "b")]}))
+        for name, extra in cases:
+            kw = K.base_kwargs(fp, cls)
+            kw.update(extra)
+            inp = {"cls": cls, "variants": [name], "flags": [], "kwargs": K.describe(kw)}
+            o = K.observe(fp, cls, kw)
+            ctx.rep.count(suite, [cls, name], nontrivial=True, hist=[cls, o["exc"] or "accepted"])
+            ctx.rep.cov["oracle_evaluations"] += 1
+            if o["exc"] is not None:
+                report(ctx, f"{cls} on a valid input ({name}): {describe_obs(o)}", inp, site=f"{cls}:valid")
+
+
 def run(ctx):
     fp = ctx.fp
     thorough = not ctx.quick()
@@ -302,6 +342,7 @@ def run(ctx):
         if ctx.driver is not None:
             expected_tie(ctx, cls)
     api_cases(ctx)
+    boundary_valid(ctx)
     converse(ctx, ctx.n(20, 120))
     ctx.rep.sample({"suite": "C19.single", "cls": "kLeastAbsErrors", "variant": "k=0",
                     "kwargs": K.describe(apply_case(fp, "kLeastAbsErrors", ["k=0"])[0])})
@@ -327,6 +368,7 @@ def search(ctx):
             ok[(cls, n)] = case(ctx, cls, [n], "search.single") == "valueError"
         pairs(ctx, cls, ok, limit=60)
     api_cases(ctx)
+    boundary_valid(ctx, suite="search.boundary_valid")
 
 
 def replay(ctx, payload):
